@@ -6,6 +6,7 @@ import compu_lib as CL
 from odxgen import desc as D
 from odxgen import gen as G
 from odxgen import refpdu
+from odxgen import sexp as S
 from odxgen import values as V
 
 ID = "C03"
@@ -293,6 +294,59 @@ def run(ctx):
             if i % 500 == 499:
                 corr.flush()
         corr.flush()
+        # (c') PDUs produced by an INDEPENDENT encoder — the Lean model (`drv_codec (encode …)`) — for the full envelope: the real code must
+        #      decode them and re-encode the decoded values to the identical bytes. (Family (c) feeds the decoder with the output of the
+        #      encoder under test: an encoder that is wrong in a way its own decoder tolerates is invisible there.)
+        drv = ctx.driver("drv_codec")
+        if drv.available():
+            mrng = ctx.sub_rng("model-pdus")
+            batch = []
+
+            def flush_model():
+                if not batch:
+                    return
+                replies = drv.query([S.encode_line(c, v, trig) for (c, obj, v, trig) in batch])
+                for (c, obj, v, trig), rep_line in zip(batch, replies):
+                    if not rep_line.startswith("(ok ") or not rep_line.endswith("(warn f))"):
+                        ctx.count("model_pdu_not_available")
+                        continue
+                    hexpdu = rep_line[4:].split(" ")[0]
+                    pdu = b"" if hexpdu == "-" else bytes.fromhex(hexpdu)
+                    ctx.histo("family", "model-pdus")
+                    O.c03_check(ctx, rep, None, c, obj, pdu, trig, "model-pdus")
+                batch.clear()
+
+            def model_cases(comps, k):
+                L, err = O.safe_load(comps)
+                if L is None:
+                    ctx.count("documents_rejected_by_loader")
+                    return
+                for c in comps:
+                    if not S.modelled(c):
+                        continue
+                    for _ in range(k):
+                        try:
+                            v, trig = V.gen_value(mrng, c), V.gen_trigger(mrng, c)
+                        except Exception:  # noqa
+                            continue
+                        batch.append((c, L[c.name], v, trig))
+
+            for comps in batches(G.enum_length_keys(), 24):
+                model_cases(comps, 3)
+            for comps in batches(G.enum_dynamic_static_fields(), 24):
+                model_cases(comps, 1)
+            for comps in batches((c for c, _v, issue in G.enum_struct_layout_orders() if not issue), 24):
+                model_cases(comps, 1)
+            flush_model()
+            for i in range(6000 if big else 900):
+                try:
+                    c = G.gen_composite(mrng, profile=G.THOROUGH if big else G.QUICK, name="C")
+                except Exception:  # noqa
+                    continue
+                model_cases([c], 3)
+                if len(batch) >= 600:
+                    flush_model()
+            flush_model()
         # (d) compu methods: every internal value of the 8-bit window
         crng = ctx.sub_rng("compu")
         for i in range(4000 if big else 900):
